@@ -191,6 +191,63 @@ theorem binary_irrev_cstr_init (k r p fr fp fv n : ℝ) (hk : 0 < k) (hr : 0 ≤
   exact cstrWith_init _ _ k r p fr fp fv n hk.ne' (Real.sqrt_pos.mpr hfv).ne' (Real.sqrt_pos.mpr hrad).ne' _
     ((cstrArg_mem_Ioo_iff k r fr fv hk hr hfv hfr).mpr hdom) (cstrArg_eq k r fr fv hfv hrad)
 
+/-! ## no growing exponential on the documented domain
+
+`…ExpArgs` (generated with the same `let`-chain as the value function) lists the argument of every `be.exp` call.  On the documented
+domain (non-negative rate constants, concentrations and times; `minor ≤ major` for `binary_irrev`) every one of them is `≤ 0`, so
+`exp` stays in (0, 1] and cannot overflow.  The value theorems above are about real numbers and cannot see overflow: an algebraically
+identical rewrite with `exp(+kf·t·(major − minor))` keeps them provable, but breaks the theorem below (it returns nan / raises
+OverflowError for kf·(major−minor)·t > 709 — the class of the repaired defect b386ccb). -/
+
+theorem pseudo_irrev_exp_args_nonpos (t kf prod major minor : ℝ) (hkf : 0 ≤ kf) (hmajor : 0 ≤ major) (ht : 0 ≤ t) :
+    ∀ a ∈ pseudoIrrevExpArgs t kf prod major minor, a ≤ 0 := by
+  have h := mul_nonneg (mul_nonneg hkf hmajor) ht
+  simp only [pseudoIrrevExpArgs, List.forall_mem_cons, List.not_mem_nil, false_imp_iff, implies_true, and_true]
+  and_intros <;> nlinarith
+
+theorem pseudo_rev_exp_args_nonpos (t kf kb prod major minor : ℝ) (hkf : 0 ≤ kf) (hkb : 0 ≤ kb) (hmajor : 0 ≤ major) (ht : 0 ≤ t) :
+    ∀ a ∈ pseudoRevExpArgs t kf kb prod major minor, a ≤ 0 := by
+  have h1 := mul_nonneg ht hkb
+  have h2 := mul_nonneg ht (mul_nonneg hkf hmajor)
+  simp only [pseudoRevExpArgs, List.forall_mem_cons, List.not_mem_nil, false_imp_iff, implies_true, and_true]
+  and_intros <;> nlinarith
+
+/-- needs the documented labelling `minor ≤ major` ("major: the more abundant reactant") -/
+theorem binary_irrev_exp_args_nonpos (t kf prod major minor : ℝ) (hkf : 0 ≤ kf) (hle : minor ≤ major) (ht : 0 ≤ t) :
+    ∀ a ∈ binaryIrrevExpArgs t kf prod major minor, a ≤ 0 := by
+  have h := mul_nonneg (mul_nonneg hkf ht) (sub_nonneg.mpr hle)
+  simp only [binaryIrrevExpArgs, List.forall_mem_cons, List.not_mem_nil, false_imp_iff, implies_true, and_true]
+  and_intros <;> nlinarith
+
+theorem binary_rev_exp_args_nonpos (t kf kb prod major minor : ℝ) (ht : 0 ≤ t) :
+    ∀ a ∈ binaryRevExpArgs t kf kb prod major minor, a ≤ 0 := by
+  simp only [binaryRevExpArgs, NumReal.sqrt_def, List.forall_mem_cons, List.not_mem_nil, false_imp_iff, implies_true, and_true,
+    neg_mul]
+  and_intros <;> exact neg_nonpos.mpr (mul_nonneg ht (Real.sqrt_nonneg _))
+
+theorem unary_irrev_cstr_exp_args_nonpos (t k r p fr fp fv : ℝ) (hk : 0 ≤ k) (hfv : 0 ≤ fv) (ht : 0 ≤ t) :
+    ∀ a ∈ unaryIrrevCstrExpArgs t k r p fr fp fv, a ≤ 0 := by
+  have h1 := mul_nonneg hfv ht
+  have h2 := mul_nonneg hk ht
+  simp only [unaryIrrevCstrExpArgs, List.forall_mem_cons, List.not_mem_nil, false_imp_iff, implies_true, and_true]
+  and_intros <;> nlinarith
+
+/-- since the repair b386ccb: the only exponential of `binary_irrev_cstr` is `exp(−fv·t)` -/
+theorem binary_irrev_cstr_exp_args_nonpos (t k r p fr fp fv n : ℝ) (hfv : 0 ≤ fv) (ht : 0 ≤ t) :
+    ∀ a ∈ binaryIrrevCstrExpArgs t k r p fr fp fv n, a ≤ 0 := by
+  have h1 := mul_nonneg hfv ht
+  simp only [binaryIrrevCstrExpArgs, List.forall_mem_cons, List.not_mem_nil, false_imp_iff, implies_true, and_true]
+  and_intros <;> nlinarith
+
+/-- `dimerization_irrev` calls no exponential at all -/
+example (t kf c t0 : ℝ) : dimerizationIrrevExpArgs t kf c t0 = [] := rfl
+
+example : ∀ a ∈ binaryIrrevExpArgs (2:ℝ) 3 5 13 11, a ≤ 0 :=
+  binary_irrev_exp_args_nonpos 2 3 5 13 11 (by norm_num) (by norm_num) (by norm_num)
+/-- non-vacuity: the list is not empty and really holds the decaying exponent -/
+example : (-12:ℝ) ∈ binaryIrrevExpArgs (2:ℝ) 3 5 13 11 := by
+  simp only [binaryIrrevExpArgs]; norm_num
+
 /-! ## signature guards
 
 The value functions above are specialisations of the source (arguments passed explicitly, one backend-independent text).  What a
